@@ -76,7 +76,7 @@ theorem verdict_success (cfg : Cfg) (s : State) (c i : Nat) (x : Conn) (ident di
     (row : Row) (hx : s.conn c = some x) (hp : x.pending[i]? = some (ident, digest))
     (hok : authOk cfg x digest r = some row) :
     step cfg s (.lookupDone c i r) =
-      (let s1 := logAct (setAuth (dropPending s c i) c ident digest row) c (.setLimits (limit OP_PUBLISH * 50))
+      (let s1 := logAct (setAuth (dropPending s c i) c ident digest row) c (.setLimits (limit OP_PUBLISH * highWaterFactor))
        let l := loop cfg c s1 x.buf
        let s2 := setBuf l.1 c l.2.1
        if l.2.2 = .crash then closeT s2 c else if l.2.2 = .brk then s2 else resumeReading s2 c) := by
@@ -90,7 +90,7 @@ theorem sync_auth_success (cfg : Cfg) (s : State) (c : Nat) (x : Conn) (f : Fram
     (hf : read f = some (.ok (.auth ident digest))) (ht : tbl ident = some row)
     (hok : cfg.H (x.nonce ++ row.secret) = digest) :
     messageReceived cfg s c f =
-      (logAct (setAuth s c ident digest row) c (.setLimits (limit OP_PUBLISH * 50)), .cont) := by
+      (logAct (setAuth s c ident digest row) c (.setLimits (limit OP_PUBLISH * highWaterFactor)), .cont) := by
   have hop : f.op.toNat = OP_AUTH := by rw [read_op hf]; rfl
   unfold messageReceived
   rw [hx]
@@ -111,7 +111,7 @@ theorem verdict_is_sync_now (cfg : Cfg) (hstore : cfg.store = .async) (tbl : Byt
     (hx : s.conn c = some x) (hp : x.pending[i]? = some (ident, digest)) (hreg : x.registered = true)
     (ht : tbl ident = some row) (hok : cfg.H (x.nonce ++ row.secret) = digest)
     (hf : f.WF) (hrd : read f = some (.ok (.auth ident digest)))
-    (hnb : (loop cfg c (logAct (setAuth (dropPending s c i) c ident digest row) c (.setLimits (limit OP_PUBLISH * 50)))
+    (hnb : (loop cfg c (logAct (setAuth (dropPending s c i) c ident digest row) c (.setLimits (limit OP_PUBLISH * highWaterFactor)))
       x.buf).2.2 ≠ .brk) :
     step cfg s (.lookupDone c i (.row row)) =
       (let l := loop (withSync cfg tbl) c (dropPending s c i) (enc f ++ x.buf)
@@ -125,10 +125,10 @@ theorem verdict_is_sync_now (cfg : Cfg) (hstore : cfg.store = .async) (tbl : Byt
   have hh : header (enc f ++ x.buf) = .ok (5 + f.body.length) f.op := header_enc_append f x.buf hf
   have hpop := popFrame_enc_append f x.buf
   have hmsg : messageReceived (withSync cfg tbl) (dropPending s c i) c f =
-      (logAct (setAuth (dropPending s c i) c ident digest row) c (.setLimits (limit OP_PUBLISH * 50)), .cont) :=
+      (logAct (setAuth (dropPending s c i) c ident digest row) c (.setLimits (limit OP_PUBLISH * highWaterFactor)), .cont) :=
     sync_auth_success (withSync cfg tbl) (dropPending s c i) c _ f ident digest tbl row hx0 hreg rfl hrd ht hok
   have hl : loop (withSync cfg tbl) c (dropPending s c i) (enc f ++ x.buf) =
-      loop (withSync cfg tbl) c (logAct (setAuth (dropPending s c i) c ident digest row) c (.setLimits (limit OP_PUBLISH * 50))) x.buf := by
+      loop (withSync cfg tbl) c (logAct (setAuth (dropPending s c i) c ident digest row) c (.setLimits (limit OP_PUBLISH * highWaterFactor))) x.buf := by
     rw [loop_ok' hh, hpop, hmsg]
   -- ... and from there on the store is irrelevant
   rw [hl, loop_store_irrelevant cfg tbl hstore c _ _ hnb]
